@@ -19,6 +19,15 @@ mod uniform;
 
 use crate::linalg::{Matrix, Vector};
 
+/// `c * ln(x)` with the convention `0 * ln(0) = 0`, for densities evaluated in log space.
+pub(crate) fn xlogy(c: f64, x: f64) -> f64 {
+    if c == 0. {
+        0.
+    } else {
+        c * x.ln()
+    }
+}
+
 /// The primary trait defining a probability distribution.
 pub trait Distribution: Send + Sync {
     type Output;
